@@ -27,6 +27,7 @@ func checkC18(c *Ctx) {
 	c.Rule("C18/R5", "duplicate policy table (DESIGN Appendix A6): REPLACE installs the new trial iff none exists or the existing date is strictly older, taking numerator, denominator and date from the new trial; COMBINE concatenates both samples and keeps the later date")
 	c.Rule("C18/R6", "combined samples are fresh slices: the helper that concatenates two samples never appends into the backing array of one of its arguments")
 
+	c.Rule("C18/R7", "no 0/0 in the bootstrap: every division by a resampled median in benchseries is reached only after that median was tested non-zero (dividing first and repairing infinities leaves NaN for 0/0, which then sorts anywhere and breaks low <= centre <= high)")
 	p := mustLoad(c, loadOpts{}, "./benchseries", "./cmd/benchseries", "./benchproc", "./benchfmt", "./benchmath", "./benchunit", "./benchproc/internal/parse")
 	fns := p.Funcs("benchseries", "cmd/benchseries", "benchproc", "benchfmt", "benchmath", "benchunit", "benchproc/internal/parse")
 	eff := newEffects(p, fns)
@@ -57,6 +58,7 @@ func checkC18(c *Ctx) {
 	c18Dates(c, p)
 	c18Fresh(c, p)
 	c18Policy(c, p)
+	c18ZeroDen(c, p)
 }
 
 // sortsParam: callee sorts parameter k on every return, with no element store afterwards.
@@ -702,4 +704,45 @@ func (o *e6Outcome) memStr(addr *Sym, fld string) string {
 		return v.String()
 	}
 	return ""
+}
+
+func c18ZeroDen(c *Ctx, p *Prog) {
+	const R = "C18/R7"
+	n := 0
+	for _, fn := range p.Funcs("benchseries") {
+		eachInstr(fn, func(b *ssa.BasicBlock, in ssa.Instruction) {
+			bo, ok := in.(*ssa.BinOp)
+			if !ok || bo.Op != token.QUO || !isFloat(bo.Type()) {
+				return
+			}
+			call, ok := bo.Y.(*ssa.Call)
+			if !ok {
+				return
+			}
+			sc := call.Call.StaticCallee()
+			if sc == nil || sc.Pkg == nil || sc.Pkg.Pkg.Path() != modPath+"/benchseries" {
+				return
+			}
+			n++
+			guarded := false
+			for _, f := range factsAt(b) {
+				cmp, ok := f.Cond.(*ssa.BinOp)
+				if !ok {
+					continue
+				}
+				zero := func(v ssa.Value) bool {
+					k, ok := v.(*ssa.Const)
+					return ok && k.Value != nil && constant.Sign(k.Value) == 0
+				}
+				if (cmp.X == bo.Y && zero(cmp.Y)) || (cmp.Y == bo.Y && zero(cmp.X)) {
+					if (cmp.Op == token.EQL && !f.True) || (cmp.Op == token.NEQ && f.True) {
+						guarded = true
+					}
+				}
+			}
+			c.Check(guarded, R, fmt.Sprintf("%s:division#%d", fnName(fn), n), p.pos(bo.Pos()), "the divisor was tested non-zero on the way to the division",
+				"a resampled statistic is divided by "+calleeName(&call.Call)+"'s result without that result having been tested non-zero: when both sides are 0 (allocs/op) the quotient is NaN, which an IsInf repair does not catch, so summaries contain NaN and low <= centre <= high fails")
+		})
+	}
+	c.Floor(R, "divisions by resampled statistics in benchseries", n, 1)
 }
